@@ -221,3 +221,29 @@ func VerifHarness_C12_ticker_keeps_newest() {
 	}
 	vAssert(fired == 1 && last == want, "P6-the-newest-scheduled-timeout-is-the-one-kept")
 }
+
+// P7: a node that holds some OTHER block (an equivocating proposer's, or a later round's proposal)
+// when +2/3 precommits for block A arrive drops it and sets itself up to fetch A's parts — otherwise
+// it rejects every part of A and stays in the commit step of that height for ever.
+func VerifHarness_C12_commit_fetches_the_decided_block() {
+	w := vC04New()
+	cs := w.cs
+	round := int64(vNondetLen("round", 0, 1))
+	w.setRound(round)
+	cs.Step = RoundStepType(vNondetLen("step", int(RoundStepPropose), int(RoundStepPrecommitWait)))
+	held := vNondetLen("held-proposal", 0, 1) // nothing, or the complete other block B
+	if held == 1 {
+		w.propose(2)
+	}
+	pcRound := int64(vNondetLen("commit-round", 0, int(round)))
+	w.seed(2, pcRound, types.VoteTypePrecommit, 1)
+	w.seed(3, pcRound, types.VoteTypePrecommit, 1)
+	w.sigID++
+	vote := vVote(0, cs.Height, pcRound, types.VoteTypePrecommit, w.idA, true, w.sigID)
+	cs.handleMsg(msgInfo{&VoteMessage{vote}, "peer"}, cs.RoundState)
+	w.drain()
+	vReach("majority-for-A-delivered")
+	vAssert(cs.Step == RoundStepCommit && cs.CommitRound == pcRound, "P7-node-enters-commit")
+	vAssert(cs.ProposalBlock == nil, "P7-a-block-other-than-the-decided-one-is-dropped")
+	vAssert(cs.ProposalBlockParts != nil && cs.ProposalBlockParts.HasHeader(w.idA.PartsHeader), "P7-node-waits-for-the-parts-of-the-decided-block")
+}
